@@ -245,7 +245,7 @@ Theorem chunking_irrelevant_all c hs alloc ops1 ops2 : good_cfg c ->
   bytes_of ops1 = bytes_of ops2 ->
   run c (hs ++ [HCall alloc ops1]) = run c (hs ++ [HCall alloc ops2]).
 Proof.
-  intros G Hok Hch Hc1 Ha1 Hc2 Ha2 Hb. rewrite !run_snoc in *.
+  intros G Hok Hch Hc1 Ha1 Hc2 Ha2 Hb. pose proof G as (Hrb & G'). rewrite !run_snoc in *.
   pose proof (hop_mono _ _ _ Hok) as Hok0.
   pose proof (hist_ok c G hs world0 Inv0 Hok0 Hch) as HI.
   set (w := run c hs) in *. cbn [run_hop] in *. rewrite run_call_frame in Hok.
@@ -255,10 +255,10 @@ Proof.
   set (w0 := set_cur (w_buf w) w).
   assert (MD : match mem_dest c alloc w0 with (w1, None) => MDpost c alloc w0 w1 | _ => True end).
   { destruct (cf_mgr c) eqn:Hm.
-    - assert (Hclr : cf_clr c = true) by (destruct G as [H|H]; [congruence|exact H]).
-      pose proof (mem_dest_tj_ok c alloc w0 Hm Hclr HI eq_refl Hp Hz) as H.
+    - assert (Hclr : cf_clr c = true) by (destruct G' as [H|H]; [congruence|exact H]).
+      pose proof (mem_dest_tj_ok c alloc w0 Hm Hclr Hrb HI eq_refl Hp Hz) as H.
       destruct (mem_dest c alloc w0) as [w1 [st|]]; [exact I|exact H].
-    - pose proof (mem_dest_ijg_ok c alloc w0 Hm HI eq_refl Hp) as H.
+    - pose proof (mem_dest_ijg_ok c alloc w0 Hm Hrb HI eq_refl Hp) as H.
       destruct (mem_dest c alloc w0) as [w1 [st|]]; [exact I|exact H]. }
   destruct (mem_dest c alloc w0) as [w1 [st|]]; [reflexivity|].
   destruct MD as (d1 & Hd1 & HJ1 & _). rewrite Hd1.
